@@ -30,8 +30,6 @@ pub proof fn lemma_is_name_skip(s: Seq<u8>)
     ensures skip_walk(s, 0) == Some(s.len() as int)
 { lemma_plain_skip(s, 0, 0); }
 
-// a clean pointer-free complete name
-pub open spec fn is_cname(s: Seq<u8>) -> bool { pcs_walk(s, 0, 0) == Some(s.len() as int) }
 pub proof fn lemma_cname_name(s: Seq<u8>)
     requires is_cname(s)
     ensures is_name(s), pcs_end(s, 0) == Some(s.len() as int)
